@@ -127,10 +127,12 @@ def r10_1(ctx):
             ctx.violation([s.key(), "fnitem"], "FS-mutating API %s passed as a function value: operand unknown" % s.name, site=site)
             continue
         if s.cls == "WRITE_HANDLE":
-            if s.modes <= {"Build"}:
+            # a handle can only come from a create/open site, whose own role and modes are checked; writing through it is
+            # allowed where creating the output is allowed
+            if s.modes <= {"Build", "InMemoryBuild"}:
                 ctx.ok("WRITE_HANDLE|%s|modes=%s" % (s.key(), sorted(s.modes)), site=site)
             else:
-                ctx.violation([s.key(), "modes"], "write through an output handle reachable in mode(s) %s (allowed: Build)" % sorted(s.modes - {"Build"}), site=site)
+                ctx.violation([s.key(), "modes"], "write through an output handle reachable in mode(s) %s (allowed: Build, InMemoryBuild)" % sorted(s.modes - {"Build", "InMemoryBuild"}), site=site)
             continue
         # CREATE_TRUNC / REMOVE
         if s.role is None:
@@ -464,6 +466,25 @@ def r07_3(ctx):
             # PathBuf::from(export_file).is_txtpp_file(): receiver derives from the same value as the target argument
             return bool({(l.kind, l.bb) for l in lv} & tgt_keys)
         cut = bool_call_edges(b, lib, ROLE["is_txtpp_file"], False, arg_pred=same_target)
+        # wrapper recognition: `ensure_not_txtpp(target)?` — the success edge of a crate-local helper counts as the guard
+        # provided every success return inside the helper is guarded by the not-a-.txtpp edge on that parameter
+        for hbb, ht in b.calls():
+            helper = next((lib.bodies[n] for n in C.callee_names(ht) if n in lib.bodies), None)
+            if helper is None or helper.name in (wt_name,):
+                continue
+            pidx = [i for i, a in enumerate(ht["args"]) if {(l.kind, l.bb) for l in C.trace(b, a)} & tgt_keys]
+            if not pidx:
+                continue
+            good = False
+            for i in pidx:
+                hcut = bool_call_edges(helper, lib, ROLE["is_txtpp_file"], False,
+                                       arg_pred=lambda t2, i=i: any(l.kind == "param" and l.data == i + 1 for l in C.trace(helper, t2["args"][0])))
+                oks = ok_sites(helper)
+                if hcut and oks and all(C.guarded(helper, o, hcut) for o in oks) and not any(
+                        tt["dest"]["l"] == 0 and not C.is_from_residual(tt) for _, tt in helper.calls()):
+                    good = True
+            if good:
+                cut = set(cut) | try_ok_edges(b, lib, helper.name)
         if cut and C.guarded(b, bb, cut):
             ctx.ok("write_temp_file guarded by !is_txtpp_file(target)|%s" % b.name, site=ctx.site(b, bb))
         else:
@@ -514,7 +535,7 @@ def r07_4(ctx):
 
 # =====================================================================================  C08
 prop("C08", "Builds are a function of the sources only (hermetic, idempotent)",
-     decided=["R08.1 every write-capable open of an output or temp path is create-or-truncate (File::create / fs::write); no OpenOptions/append anywhere",
+     decided=["R08.1 every write-capable open of an output or temp path is create-or-truncate (File::create / fs::write / an OpenOptions chain with write(true)+truncate(true) and no append)",
               "R08.2 every read of a generated path (OUT/TMP role) is a byte read whose buffer flows only into an equality comparison",
               "R08.3 an include of X with a .txtpp source is read only in a second pass (= C02 R02.2/R02.3, re-checked here)"],
      not_decided=["idempotence and crash repair as runtime histories", "that the same bytes are produced (C01)"])
@@ -528,7 +549,7 @@ def r08_1(ctx):
         site = _site_ctx(ctx, s)
         if s.cls == "CREATE_TRUNC":
             ctx.ok("truncating|%s" % s.key(), site=site)
-        elif s.cls == "OTHER_MUTATING" and ("OpenOptions" in s.name or s.name.endswith("File::options") or "create_new" in s.name):
+        elif s.cls == "OTHER_MUTATING" and ("OpenOptions" in s.name or "create_new" in s.name):
             ctx.violation([s.key()], "write-capable open through %s: not provably create-or-truncate (stale bytes could survive)" % s.name, site=site)
 
 
@@ -685,12 +706,25 @@ def r09_1(ctx):
         return
     _write_gate(ctx, dn, "needed-output", ws, lambda t: has_field(C.trace(dn, t["args"][0]), "path"),
                 lambda lv: has_field(lv, "out"))
-    # the buffer written is the in-memory buffer
+    # the buffer written is the in-memory buffer: content operand of fs::write, or of the write_all on the created handle
+    pv = prov(ctx)
+    contents = []
     for bb, t in ws:
-        if len(t["args"]) > 1 and has_field(C.trace(dn, t["args"][1], through_fields=True), "out"):
-            ctx.ok("needed-output|written content is CtxOut::InMemoryBuild.out", site=ctx.site(dn, bb))
+        if C.callee_name(t) == "std::fs::write" and len(t["args"]) > 1:
+            contents.append((dn, bb, t["args"][1]))
+    for b2 in [dn] + ctx.lib.closures_of(dn):
+        for bb, t in b2.calls():
+            if T.classify_fs(C.callee_name(t)) == "WRITE_HANDLE" and len(t["args"]) > 1 and \
+                    (b2 is not dn or bb in reg):
+                contents.append((b2, bb, t["args"][1]))
+    if not contents:
+        ctx.violation(["needed-output", "content"], "needed mode creates the output but no content write was found", site=ctx.site(dn, ws[0][0]))
+    for (b2, bb, op) in contents:
+        lv = pv.leaves(b2, op, expand_fields=False)
+        if lv and all(l.kind == "field" and has_field([C.Leaf("field", None, l.data)], "out") for l in lv):
+            ctx.ok("needed-output|written content is CtxOut::InMemoryBuild.out", site=ctx.site(b2, bb))
         else:
-            ctx.violation(["needed-output", "content"], "needed mode writes something other than its in-memory buffer", site=ctx.site(dn, bb))
+            ctx.violation(["needed-output", "content"], "needed mode writes something other than its in-memory buffer", site=ctx.site(b2, bb))
 
 
 @rule("C09", "R09.2", floor=2)
@@ -702,7 +736,8 @@ def r09_2(ctx):
         if s.role == "TMP" or (s.role is None and s.body.name == ROLE["create_file"]):
             continue
         site = _site_ctx(ctx, s)
-        if "InMemoryBuild" in s.modes and not (dn and s.body is dn):
+        in_done = dn is not None and (s.body is dn or s.body.root == dn.name)
+        if "InMemoryBuild" in s.modes and not in_done:
             ctx.violation([s.key()], "%s touches the output in needed mode outside the compare-and-write in done()" % s.name, site=site)
         else:
             ctx.ok("%s|%s|modes=%s" % (s.cls, s.key(), sorted(s.modes)), site=site)
